@@ -79,8 +79,22 @@ func runC06(e *Engine, res *EpisodeResult) {
 func c06Threshold(e *Engine, res *EpisodeResult, spec *plan.Script, label string) int64 {
 	unl := runLimited(e, spec, -1)
 	res.Evals++
-	if unl.buildErr != nil || unl.err != nil || unl.panicked != "" {
-		return -1 // the program fails by itself: not a ladder
+	if unl.buildErr != nil || unl.panicked != "" {
+		return -1 // does not compile, or panics by itself: not a ladder
+	}
+	if unl.err != nil && errors.Is(unl.err, tengo.ErrObjectAllocLimit) {
+		return -1
+	}
+	// A program may end in its own run-time error: the "result" of a run is then
+	// that error together with the globals, and a budget must not change it either.
+	same := func(lr limRun) bool {
+		if (lr.err == nil) != (unl.err == nil) {
+			return false
+		}
+		return lr.err == nil || lr.err.Error() == unl.err.Error()
+	}
+	if unl.err != nil {
+		e.probe("ladderEndingInOwnError")
 	}
 	const hardCap = 4000
 	A := int64(-1)
@@ -91,15 +105,15 @@ func c06Threshold(e *Engine, res *EpisodeResult, spec *plan.Script, label string
 			e.violate("C06.alloc", "%s: budget %d: panic reached the caller: %s", label, n, lr.panicked)
 			return -1
 		}
-		if lr.err == nil {
+		if same(lr) {
 			A = n
 			if lr.globals != unl.globals {
-				e.violate("C06.alloc", "%s: with budget %d the run succeeds but its globals are %s; unlimited run gives %s", label, n, clip(lr.globals), clip(unl.globals))
+				e.violate("C06.alloc", "%s: with budget %d the run ends like the unlimited run but its globals are %s; unlimited run gives %s", label, n, clip(lr.globals), clip(unl.globals))
 			}
 			break
 		}
-		if !errors.Is(lr.err, tengo.ErrObjectAllocLimit) {
-			e.violate("C06.alloc", "%s: with budget %d the run fails with %q, which is not the allocation-limit error (unlimited run succeeds)", label, n, lr.err.Error())
+		if lr.err == nil || !errors.Is(lr.err, tengo.ErrObjectAllocLimit) {
+			e.violate("C06.alloc", "%s: with budget %d the run ends with %v, which is neither the allocation-limit error nor the outcome of the unlimited run (%v)", label, n, lr.err, unl.err)
 			return -1
 		}
 		e.fired("allocBudgetExhausted")
@@ -112,8 +126,8 @@ func c06Threshold(e *Engine, res *EpisodeResult, spec *plan.Script, label string
 	for _, n := range []int64{A + 1, A + 2, A + 7, 2*A + 1, 1 << 40} {
 		lr := runLimited(e, spec, n)
 		res.Evals++
-		if lr.err != nil || lr.panicked != "" {
-			e.violate("C06.alloc", "%s: budget %d succeeds but the larger budget %d fails with %v %s", label, A, n, lr.err, lr.panicked)
+		if !same(lr) || lr.panicked != "" {
+			e.violate("C06.alloc", "%s: budget %d gives the unlimited run's outcome but the larger budget %d ends with %v %s", label, A, n, lr.err, lr.panicked)
 		} else if lr.globals != unl.globals {
 			e.violate("C06.alloc", "%s: budget %d changes the result: %s vs unlimited %s", label, n, clip(lr.globals), clip(unl.globals))
 		}
@@ -130,7 +144,10 @@ func c06Threshold(e *Engine, res *EpisodeResult, spec *plan.Script, label string
 				e3 := cl.RunContext(context.Background())
 				e4 := cl.Clone().RunContext(context.Background())
 				res.Evals += 4
-				if e1 != nil || e2 != nil || e3 != nil || e4 != nil {
+				okErr := func(x error) bool {
+					return (x == nil) == (unl.err == nil) && (x == nil || x.Error() == unl.err.Error())
+				}
+				if !okErr(e1) || !okErr(e2) || !okErr(e3) || !okErr(e4) {
 					e.violate("C06.alloc", "%s: with budget %d the first run gives %v, the second run of the same object %v, a clone %v, a clone of the clone %v", label, A, e1, e2, e3, e4)
 				}
 				if A > 0 {
